@@ -197,7 +197,7 @@ def random_triaxys(rng, ntimes=None, nfreq=None, directional=None, ddir=None,
         E = np.vectorize(lambda a, b: dec(int(a), int(b) + 7))(m, ex).astype(float)
         dirs = None
     return dict(fmt="triaxys", times=times, freq=freq, dir=dirs, E=E, f0=f0, df=df,
-                ddir=ddir, toff=toff, directional=directional,
+                ddir=ddir, toff=toff, directional=directional, names=rng.choice(("time", "seq")),
                 lat=-(48 + 57.6668 / 60), lon=-(166 + 31.6837 / 60),
                 label=f"{'DIRSPEC' if directional else 'NONDIRSPEC'} toff={toff}")
 
@@ -244,8 +244,9 @@ def encode_triaxys(case, outdir):
             for i in range(nf):
                 L.append(_tok("{:.3f}", case["freq"][i]) + "  " + _tok("{:.7E}", float(rows[i])))
             ext = "NONDIRSPEC"
-        # vendor style names: time stamp first, so that name order is time order
-        p = os.path.join(outdir, f"{_py(t):%Y%m%d%H%M}.{ext}")
+        # vendor style names carry the time stamp (name order is time order); "seq" names number the files in the order they were
+        # written, which is the record order of the case and need not be time order
+        p = os.path.join(outdir, (f"rec{it:03d}.{ext}" if case.get("names") == "seq" else f"{_py(t):%Y%m%d%H%M}.{ext}"))
         with open(p, "w") as f:
             f.write("\n".join(L) + "\n")
         paths.append(p)
